@@ -271,8 +271,16 @@ func (m *c26Metrics) count(suffix string) int64 {
 // FakeClock whose Sleep records the requested duration and returns at once.
 type c26Clock struct {
 	*clockwork.FakeClock
-	mu     sync.Mutex
-	sleeps []int64
+	mu      sync.Mutex
+	sleeps  []int64
+	tickers []int64 // periods requested through NewTicker, in order
+}
+
+func (c *c26Clock) NewTicker(d time.Duration) clockwork.Ticker {
+	c.mu.Lock()
+	c.tickers = append(c.tickers, int64(d))
+	c.mu.Unlock()
+	return c.FakeClock.NewTicker(d)
 }
 
 func (c *c26Clock) Sleep(d time.Duration) {
@@ -601,7 +609,16 @@ func c26Run(raw json.RawMessage) (Case, error) {
 		return Case{}, errors.New("C26: tickers were not created")
 	}
 	t0 := clock.Now().UnixNano()
-	q := in.BT / 4
+	// the period the stale-batch ticker was really created with (the first ticker of dispatchStaleBatches)
+	clock.mu.Lock()
+	q := int64(0)
+	if len(clock.tickers) > 0 {
+		q = clock.tickers[0]
+	}
+	clock.mu.Unlock()
+	if q <= 0 {
+		return Case{}, errors.New("C26: stale-batch ticker period not observed")
+	}
 	now, nextTick := t0, t0+q
 
 	syncTimeouts := 0
